@@ -50,6 +50,16 @@ func (g *tryGen) body(depth int) MalType {
 	case 4:
 		return call1("f-throw", g.thrown()) // via a called function
 	case 5:
+		switch r.intn(5) { // via a builtin that calls back into lisp
+		case 0:
+			return call1("apply", sy("f-throw"), vc(g.thrown()))
+		case 1:
+			return call1("swap!", call1("atom", 0), ls(sy("fn"), vc(sy("x")), call1("f-throw", g.thrown())))
+		case 2:
+			return call1("update", HashMap{Val: map[string]MalType{kw("a"): 1}}, kw("a"), ls(sy("fn"), vc(sy("x")), call1("throw", g.thrown())))
+		case 3:
+			return call1("map", sy("f-throw"), call1("list", g.thrown()))
+		}
 		return call1("map", ls(sy("fn"), vc(sy("x")), call1("throw", sy("x"))), vc(g.r.intn(3), 9)) // via a builtin callback
 	case 6:
 		return call1("+", 1, "s") // type error (reflect panic recovered)
@@ -328,7 +338,7 @@ func (g *qqGen) macroProgram() (defs []MalType, callForm MalType) {
 		ls(sy("def"), sy("x"), 7), ls(sy("def"), sy("ys"), call1("list", 1, 2)), ls(sy("def"), sy("vs"), vc(3, 4)),
 		ls(sy("def"), sy("f1"), ls(sy("fn"), vc(sy("a")), call1("trace!", call1("+", sy("a"), 1)))),
 	}
-	switch r.intn(12) {
+	switch r.intn(13) {
 	case 9: // expansion is a VECTOR literal with non-constant elements: it still has to be evaluated
 		defs = append(defs, ls(sy("defmacro"), sy("m"), ls(sy("fn"), vc(sy("a"), sy("b")),
 			call1("quasiquote", vc(call1("unquote", sy("a")), call1("unquote", sy("b")), sy("x"))))))
@@ -371,6 +381,13 @@ func (g *qqGen) macroProgram() (defs []MalType, callForm MalType) {
 		defs = append(defs, ls(sy("defmacro"), sy("m"), ls(sy("fn"), vc(sy("f"), sy("&"), sy("args")),
 			call1("quasiquote", ls(call1("unquote", sy("f")), call1("splice-unquote", sy("args")), call1("splice-unquote", sy("args")))))))
 		callForm = ls(sy("m"), sy("list"), call1("trace!", 1), sy("x"))
+	case 12: // a macro whose expansion is, at head position, a call of a DIFFERENT macro (other arity)
+		defs = append(defs,
+			ls(sy("defmacro"), sy("inner"), ls(sy("fn"), vc(sy("a"), sy("b"), sy("c")),
+				call1("quasiquote", ls(sy("list"), call1("unquote", sy("c")), call1("unquote", sy("b")), call1("unquote", sy("a")))))),
+			ls(sy("defmacro"), sy("m"), ls(sy("fn"), vc(sy("a"), sy("b")),
+				call1("quasiquote", ls(sy("inner"), call1("unquote", sy("a")), call1("unquote", sy("b")), 0)))))
+		callForm = ls(sy("m"), call1("trace!", 1), call1("trace!", 4))
 	case 5: // an ordinary function is unaffected
 		defs = append(defs, ls(sy("def"), sy("m"), ls(sy("fn"), vc(sy("a"), sy("b")), call1("list", sy("a"), sy("b")))))
 		callForm = ls(sy("m"), call1("trace!", 1), call1("trace!", 2))
@@ -381,7 +398,18 @@ func (g *qqGen) macroProgram() (defs []MalType, callForm MalType) {
 			ls(sy("cond"), call1("trace!", false), 1, call1("trace!", true), 2),
 			ls(sy("or"), call1("trace!", nil), call1("trace!", 3), call1("trace!", 4)),
 			ls(sy("and"), call1("trace!", 1), call1("trace!", nil), call1("trace!", 4)),
-		}[r.intn(5)]
+			// operands that are vector / map LITERALS with effects inside: evaluated exactly once
+			ls(sy("or"), vc(call1("trace!", 1)), call1("trace!", 2)),
+			ls(sy("or"), false, nil, HashMap{Val: map[string]MalType{kw("k"): call1("trace!", 1)}}, 9),
+			ls(sy("and"), vc(call1("trace!", 1), call1("trace!", 2)), HashMap{Val: map[string]MalType{kw("k"): call1("trace!", 3)}}),
+			ls(sy("cond"), vc(call1("trace!", 1)), vc(call1("trace!", 2)), true, 3),
+			ls(sy("->"), vc(call1("trace!", 1)), ls(sy("conj"), call1("trace!", 2)), sy("count")),
+			ls(sy("->>"), vc(call1("trace!", 1)), ls(sy("cons"), call1("trace!", 2)), sy("first")),
+			// macros nested in macros, of different kinds
+			ls(sy("or"), ls(sy("and"), call1("trace!", 1), call1("trace!", 2))),
+			ls(sy("->"), nil, ls(sy("or"), call1("trace!", 7))),
+			ls(sy("and"), ls(sy("or"), nil, call1("trace!", 1)), ls(sy("cond"), false, 1, true, call1("trace!", 2))),
+		}[r.intn(14)]
 	}
 	// the macro flag lives on the VALUE, not on the name: the same call through another binding of the macro
 	// (def alias, let alias, function parameter), or with the macro's name shadowed by a local function
@@ -559,9 +587,46 @@ func collTyped(r *rng, kind string) MalType {
 	return collArg(r, 1)
 }
 
+// several keys in one call, drawn from the map's OWN keys (all present, some present, repeated): dissoc / assoc /
+// hash-map / hash-set / merge / get-in over maps of 2‥4 entries
+func multiKeyCase(r *rng) MalType {
+	keys := []MalType{kw("a"), kw("b"), kw("c"), "k", kw("d")}
+	n := 2 + r.intn(3)
+	m := map[string]MalType{}
+	var own []MalType
+	for i := 0; i < n; i++ {
+		k := keys[i]
+		m[k.(string)] = i + 1
+		own = append(own, k)
+	}
+	pickOwn := func() MalType { return own[r.intn(len(own))] }
+	q := func(v MalType) MalType { return call1("quote", v) }
+	hm := q(HashMap{Val: m})
+	switch r.intn(7) {
+	case 0:
+		return call1("dissoc", hm, pickOwn(), pickOwn())
+	case 1:
+		return call1("dissoc", hm, pickOwn(), kw("zz"), pickOwn(), pickOwn())
+	case 2:
+		return call1("assoc", hm, pickOwn(), 10, pickOwn(), 20, kw("new"), 30)
+	case 3:
+		return call1("hash-map", pickOwn(), 1, pickOwn(), 2, pickOwn(), 3)
+	case 4:
+		return call1("hash-set", pickOwn(), pickOwn(), pickOwn())
+	case 5:
+		m2 := map[string]MalType{pickOwn().(string): 99, "ʞnew": 7}
+		return call1("merge", hm, q(HashMap{Val: m2}))
+	default:
+		return call1("count", call1("dissoc", call1("assoc", hm, kw("x"), 1, kw("y"), 2), kw("x"), pickOwn(), kw("y")))
+	}
+}
+
 func collCall(r *rng, depth int) MalType {
 	if r.chance(1, 25) {
 		return renameKeysCase(r)
+	}
+	if r.chance(1, 20) {
+		return multiKeyCase(r)
 	}
 	if r.chance(3, 5) {
 		names := make([]string, 0, len(collDomains))
